@@ -437,10 +437,14 @@ pub fn section_text(name: Option<&str>, probe: &str, s: &Section) -> String {
 /// and, for string options, an earlier assignment of the same key in the same section (the last one
 /// wins); 3 the section split in two blocks with the same header.
 pub fn spelling_of(p: &Placement) -> u64 {
-    crate::rng::fnv64(format!("spell|{}|{:?}|{}", p.probe, p.sources, p.custom.len()).as_bytes()) % 4
+    // low two bits: the style; the bits above: where the rotation of the spellings of `true` starts
+    let h = crate::rng::fnv64(format!("spell|{}|{:?}|{}", p.probe, p.sources, p.custom.len()).as_bytes());
+    (h % 4) + 4 * ((h >> 8) % 4)
 }
 
 pub fn section_text_styled(name: Option<&str>, probe: &str, s: &Section, style: u64) -> String {
+    let rot = (style / 4) as usize;
+    let style = style % 4;
     let mixed = |k: &str| -> String {
         let mut up = true;
         k.chars()
@@ -462,7 +466,7 @@ pub fn section_text_styled(name: Option<&str>, probe: &str, s: &Section, style: 
     // vary the position of the entries inside the section: flags first, value, features
     for (i, b) in s.flags.iter().enumerate() {
         if style == 2 {
-            match i % 4 {
+            match (i + rot) % 4 {
                 0 => t.push_str(&format!("\t{} = yes\n", b)),
                 1 => t.push_str(&format!("\t{}\n", b)),
                 2 => t.push_str(&format!("\t{} = on\n", b)),
